@@ -6,9 +6,13 @@ so that a crash of ONNX Runtime (e.g. SIGFPE on an integer division) cannot take
 the parent records the case as `crash` and restarts the worker.
 
 Oracle (per output element, float outputs):
-    |ort - jax32| <= K_D * |jax32 - jax64| + K_E * eps * |jax64| + K_N * (rms|jax32-jax64| + eps * rms|jax64|)
-i.e. a tolerance derived from JAX's own f32-vs-f64 discrepancy on the same input (element-wise and
-norm-wise, because backward-stable kernels are only norm-wise accurate), never a fixed rtol.
+    |ort - jax32| <= K_D * d + K_E * eps * |jax64| + K_N * (rms d + eps * rms|jax64|) + K_A * eps
+    d = max(|jax32 - jax64|, |jax32(x) - jax32(x (1 +- eps))|)
+i.e. a tolerance derived from JAX's own f32-vs-f64 discrepancy on the same input and from the
+forward error a one-ulp input perturbation causes (element-wise and norm-wise, because
+backward-stable kernels are only norm-wise accurate), never a fixed rtol.  K_A * eps is the
+absolute unit round-off at scale 1 (kernels like exp(x)-1 or 1+erf have intermediates of size 1).
+Elements where eager JAX f32 overflowed to inf while its f64 evaluation is finite are skipped.
 Integer / bool outputs must be identical, shapes identical.  Elements where eager JAX itself returns
 NaN are outside the callable's domain and are skipped (counted).
 """
@@ -25,7 +29,7 @@ from typing import Any, Optional
 
 HERE = Path(__file__).resolve().parent
 
-K_D, K_E, K_N = 16.0, 64.0, 16.0
+K_D, K_E, K_N, K_A = 16.0, 64.0, 16.0, 4.0
 
 HALF_POOL = [0.5, -0.5, 1.5, -1.5, 2.5, -2.5, 3.5, -3.5, 0.0, 1.0, -1.0, 2.0, -2.0, 4.5, -4.5]
 MAG_POOL = [0.0, 1.0, -1.0, 1e-3, -1e-3, 1e-6, -1e-6, 20.0, -20.0, 100.0, -100.0, 1e4, -1e4, 0.25, -7.0,
@@ -119,7 +123,36 @@ def _concrete_shape(shape, symmap: dict, symval: int):
     return tuple(symmap.setdefault(d, symval) if isinstance(d, str) else int(d) for d in shape)
 
 
+def _keep_structure(arr, own):
+    """Structure of the testcase's own values that is part of the callable's domain and that an
+    element-wise draw would destroy: monotone last axis (bins, knots, sorted tables) and
+    triangular / diagonal zero patterns."""
+    import numpy as np
+    if own is None:
+        return arr
+    own = np.asarray(own)
+    if own.shape != arr.shape or own.ndim == 0:
+        return arr
+    if own.shape[-1] >= 2 and np.issubdtype(own.dtype, np.number) and not np.iscomplexobj(own):
+        d = np.diff(own.astype(np.float64), axis=-1)
+        if (d >= 0).all() and (d > 0).any():
+            arr = np.sort(arr, axis=-1)
+        elif (d <= 0).all() and (d < 0).any():
+            arr = np.sort(arr, axis=-1)[..., ::-1].copy()
+    if own.ndim >= 2 and own.shape[-1] == own.shape[-2] and own.shape[-1] >= 2 and (own == 0).any():
+        if (np.triu(own) == own).all():
+            arr = np.triu(arr)
+        elif (np.tril(own) == own).all():
+            arr = np.tril(arr)
+    return arr
+
+
 def _fill_float(shape, dtype, kind: str, rng: Rng, own=None):
+    import numpy as np
+    return _keep_structure(_fill_float0(shape, dtype, kind, rng, own), None if kind == "own" else own)
+
+
+def _fill_float0(shape, dtype, kind: str, rng: Rng, own=None):
     import numpy as np
     n = 1
     for d in shape:
@@ -186,6 +219,10 @@ def _fill_bool(shape, kind: str, rng: Rng, own=None):
     return np.asarray([bool(rng.below(2)) for _ in range(n)], dtype=bool).reshape(shape)
 
 
+# (component, input index) -> "sorted": inputs that must be ascending although the testcase only gives shapes
+DOMAIN = {("searchsorted", 0): "sorted", ("digitize", 1): "sorted", ("interp", 1): "sorted"}
+
+
 def build_inputs(tp: dict, kind: str, seed: int, f64: bool, symval: int = 2):
     """(to_onnx input specs, concrete numpy inputs, description)."""
     import numpy as np
@@ -243,7 +280,10 @@ def build_inputs(tp: dict, kind: str, seed: int, f64: bool, symval: int = 2):
             own = None
             if values is not None and i < len(values):
                 own = np.asarray(values[i])
-            xs.append(fill(_concrete_shape(shp, symmap, symval), dt, own))
+            arr = fill(_concrete_shape(shp, symmap, symval), dt, own)
+            if own is None and DOMAIN.get((tp.get("component"), i)) == "sorted" and arr.ndim >= 1:
+                arr = np.sort(arr, axis=-1)
+            xs.append(arr)
     elif values is not None:
         for v in values:
             a = np.asarray(v)
@@ -334,10 +374,15 @@ def compare(ort_out, j_main, j_ref, f64: bool, j_pert=None) -> dict:
                 d = np.maximum(d, np.where(np.isfinite(dp), dp, 0.0))
             rms_d = float(np.sqrt(np.mean(d ** 2))) if d.size else 0.0
             rms_r = float(np.sqrt(np.mean(refmag ** 2))) if d.size else 0.0
-            tol = K_D * d + K_E * eps * refmag + K_N * (rms_d + eps * rms_r)
+            tol = K_D * d + K_E * eps * refmag + K_N * (rms_d + eps * rms_r) + K_A * eps
             nan_e = np.isnan(ee)
             skipped_nan += int(nan_e.sum())
             inf_e = np.isinf(ee)
+            if rr is not None and np.asarray(rr).shape == ee.shape:
+                overflowed = inf_e & np.isfinite(np.asarray(rr, dtype=np.float64))
+                skipped_nan += int(overflowed.sum())       # JAX's own f32 evaluation overflowed
+                inf_e = inf_e & ~overflowed
+                nan_e = nan_e | overflowed
             fin = ~(nan_e | inf_e)
             bad = np.zeros(ee.shape, dtype=bool)
             with np.errstate(all="ignore"):
@@ -570,6 +615,7 @@ def worker_main() -> None:
     os.dup2(devnull, 2)
     real_out.write("READY\n")
     real_out.flush()
+    served = 0
     for line in sys.stdin:
         line = line.strip()
         if not line:
@@ -577,12 +623,18 @@ def worker_main() -> None:
         req = json.loads(line)
         if req.get("op") == "quit":
             break
+        served += 1
         try:
             r = run_case(req["index"], req["seed"], req["kinds"], req.get("symval", 2))
         except BaseException as e:  # noqa
             r = {"index": req["index"], "status": "harness_error", "error": f"{type(e).__name__}: {e}"[:300]}
+        last = served >= 150       # bound the memory of one worker (jax / onnx caches grow)
+        if last:
+            r["_last"] = True
         real_out.write(json.dumps(r, default=str) + "\n")
         real_out.flush()
+        if last:
+            break
 
 
 class Worker:
@@ -667,6 +719,10 @@ def run_pool(jobs: list[dict], nworkers: int, per_case_timeout: float = 240.0, l
                 continue
             if w.job is not None:
                 results[w.job[0]] = r
+            if r.pop("_last", False):        # the worker retires itself: start a fresh one
+                w.job = None
+                replace(w, "retired")
+                continue
             assign(w)
         now = time.time()
         for w in list(workers):
